@@ -92,11 +92,13 @@ type c09Obs struct {
 	HashEq   bool     `json:"hash_eq"`  // app hash of the scenario block equal on both replicas
 	NextEq   bool     `json:"next_eq"`  // app hash of the following (empty) block equal
 	TxEq     bool     `json:"tx_eq"`    // DeliverTx response (code, data, gas, events) equal
-	TxOK     bool     `json:"tx_ok"`    // tx code 0 and no VM error on the replica WITH queries
+	TxOK     bool     `json:"tx_ok"`    // tx code 0 on the replica WITH queries
 	BaseOK   bool     `json:"base_ok"`  // … on the replica without
-	Base     []string `json:"base"`     // K, X, Y, Z unibi without queries
-	With     []string `json:"with"`     // K, X, Y, Z unibi with queries
+	Base     []string `json:"base"`     // unibi of K, X, Y, Z, S (signer), F (fee collector), C without queries
+	With     []string `json:"with"`     // … with queries
+	Gas      [2]int64 `json:"gas"`      // gas used by the tx: without, with queries
 	QRes     []string `json:"qres"`     // per query: ok | vmerr | err | panic
+	QGas     []int64  `json:"qgas"`     // per query: gas used by a simulated tx (0 for other kinds)
 	Injected bool     `json:"injected"` // the injection point was reached
 	Panic    string   `json:"panic"`    // Go panic escaping DeliverTx ("" if none)
 }
@@ -233,7 +235,7 @@ func assemble(calls []asmCall, revert bool) []byte {
 			b = append(b, v...)
 			b = append(b, 0x73) // PUSH20 addr
 			b = append(b, cl.to.Bytes()...)
-			b = append(b, 0x5a, 0xf1, 0x50) // GAS CALL POP
+			b = append(b, 0x62, 0x03, 0x0d, 0x40, 0xf1, 0x50) // PUSH3 200000; CALL; POP (a failing call burns its own allowance only)
 		}
 		if revert {
 			b = append(b, 0x60, 0x00, 0x60, 0x00, 0xfd)
@@ -329,13 +331,13 @@ func (w *world) signedFromX(to *gethcommon.Address, value *big.Int, data []byte)
 }
 
 // doQuery issues one read-only request through the real baseapp entry points.
-func (w *world) doQuery(q c09Query) (res string) {
+func (w *world) doQuery(q c09Query) (res string, gas int64) {
 	defer func() {
 		if r := recover(); r != nil {
 			if os.Getenv("VERIF_C09_DEBUG") != "" {
 				fmt.Println("   query panic:", r)
 			}
-			res = "panic"
+			res, gas = "panic", 0
 		}
 	}()
 	ft := precompile.PrecompileAddr_FunToken
@@ -343,78 +345,81 @@ func (w *world) doQuery(q c09Query) (res string) {
 	switch q.Kind {
 	case "call_read": // eth_call of a view method of the FunToken precompile
 		in, _ := embeds.SmartContract_FunToken.ABI.Pack("bankBalance", to, "unibi")
-		return w.ethCall("/eth.evm.v1.Query/EthCall", w.callArgs(ft, nil, in))
+		return w.ethCall("/eth.evm.v1.Query/EthCall", w.callArgs(ft, nil, in)), 0
 	case "call_xfer": // eth_call: plain value transfer X -> to (EVM only)
-		return w.ethCall("/eth.evm.v1.Query/EthCall", w.callArgs(to, unibiWei(q.Amt), nil))
+		return w.ethCall("/eth.evm.v1.Query/EthCall", w.callArgs(to, unibiWei(q.Amt), nil)), 0
 	case "call_bank": // eth_call of FunToken.bankMsgSend(to, unibi, amt) from X
-		return w.ethCall("/eth.evm.v1.Query/EthCall", w.callArgs(ft, nil, packBankMsgSend(to, "unibi", q.Amt)))
+		return w.ethCall("/eth.evm.v1.Query/EthCall", w.callArgs(ft, nil, packBankMsgSend(to, "unibi", q.Amt))), 0
 	case "call_bank_other": // the same with a denom that is not the EVM denom
-		return w.ethCall("/eth.evm.v1.Query/EthCall", w.callArgs(ft, nil, packBankMsgSend(to, w.otherDn, q.Amt)))
+		return w.ethCall("/eth.evm.v1.Query/EthCall", w.callArgs(ft, nil, packBankMsgSend(to, w.otherDn, q.Amt))), 0
 	case "est_xfer":
-		return w.ethCall("/eth.evm.v1.Query/EstimateGas", w.callArgs(to, unibiWei(q.Amt), nil))
+		return w.ethCall("/eth.evm.v1.Query/EstimateGas", w.callArgs(to, unibiWei(q.Amt), nil)), 0
 	case "est_bank":
-		return w.ethCall("/eth.evm.v1.Query/EstimateGas", w.callArgs(ft, nil, packBankMsgSend(to, "unibi", q.Amt)))
+		return w.ethCall("/eth.evm.v1.Query/EstimateGas", w.callArgs(ft, nil, packBankMsgSend(to, "unibi", q.Amt))), 0
 	case "trace_bank": // debug_traceTransaction of a signed bankMsgSend from X
 		msg := w.signedFromX(&ft, nil, packBankMsgSend(to, "unibi", q.Amt))
 		_, err := w.grpc("/eth.evm.v1.Query/TraceTx", &evm.QueryTraceTxRequest{Msg: msg, BlockNumber: w.c.App.LastBlockHeight(),
 			BlockTime: w.c.Time, BlockMaxGas: -1, ChainId: w.c.ChainID.Int64()})
 		if err != nil {
-			return "err"
+			return "err", 0
 		}
-		return "ok"
+		return "ok", 0
 	case "sim_evm": // tx simulation of an EVM value transfer X -> to
 		bz, err := w.c.EncodeEth(w.signedFromX(&to, unibiWei(q.Amt), nil))
 		if err != nil {
-			return "err"
+			return "err", 0
 		}
-		if _, _, err := w.c.App.Simulate(bz); err != nil {
-			return "err"
+		gi, _, err := w.c.App.Simulate(bz)
+		if err != nil {
+			return "err", 0
 		}
-		return "ok"
+		return "ok", int64(gi.GasUsed)
 	case "sim_evm_bank": // tx simulation of an EVM tx calling FunToken.bankMsgSend from X
 		bz, err := w.c.EncodeEth(w.signedFromX(&ft, nil, packBankMsgSend(to, "unibi", q.Amt)))
 		if err != nil {
-			return "err"
+			return "err", 0
 		}
-		if _, _, err := w.c.App.Simulate(bz); err != nil {
-			return "err"
+		gi, _, err := w.c.App.Simulate(bz)
+		if err != nil {
+			return "err", 0
 		}
-		return "ok"
+		return "ok", int64(gi.GasUsed)
 	case "sim_bank": // tx simulation of a Cosmos bank MsgSend (unibi) cosmos-account -> to
 		from := sdk.AccAddress(w.cosmos.PubKey().Address())
 		qctx := w.c.App.NewContext(true, w.c.Header)
 		acc := w.c.App.AccountKeeper.GetAccount(qctx, from)
 		if acc == nil {
-			return "err"
+			return "err", 0
 		}
 		msg := banktypes.NewMsgSend(from, eth.EthAddrToNibiruAddr(to), Unibi(q.Amt))
 		tx, err := sims.GenSignedMockTx(rand.New(rand.NewSource(1)), w.c.TxCfg, []sdk.Msg{msg}, Unibi(1_000_000), 2_000_000,
 			qctx.ChainID(), []uint64{acc.GetAccountNumber()}, []uint64{acc.GetSequence()}, w.cosmos)
 		if err != nil {
-			return "err"
+			return "err", 0
 		}
 		bz, err := w.c.TxCfg.TxEncoder()(tx)
 		if err != nil {
-			return "err"
+			return "err", 0
 		}
-		if _, _, err := w.c.App.Simulate(bz); err != nil {
-			return "err"
+		gi, _, err := w.c.App.Simulate(bz)
+		if err != nil {
+			return "err", 0
 		}
-		return "ok"
+		return "ok", int64(gi.GasUsed)
 	case "grpc_bank":
 		_, err := w.grpc("/cosmos.bank.v1beta1.Query/Balance", &banktypes.QueryBalanceRequest{Address: eth.EthAddrToNibiruAddr(to).String(), Denom: "unibi"})
-		return errClass(err)
+		return errClass(err), 0
 	case "grpc_evm_balance":
 		_, err := w.grpc("/eth.evm.v1.Query/Balance", &evm.QueryBalanceRequest{Address: to.Hex()})
-		return errClass(err)
+		return errClass(err), 0
 	case "grpc_funtoken":
 		_, err := w.grpc("/eth.evm.v1.Query/FunTokenMapping", &evm.QueryFunTokenMappingRequest{Token: "unibi"})
-		return errClass(err)
+		return errClass(err), 0
 	case "grpc_oracle":
 		_, err := w.grpc("/nibiru.oracle.v1.Query/ExchangeRates", &oracletypes.QueryExchangeRatesRequest{})
-		return errClass(err)
+		return errClass(err), 0
 	}
-	return "err"
+	return "err", 0
 }
 
 func errClass(err error) string {
@@ -431,7 +436,9 @@ type runOut struct {
 	tx         []byte
 	txOK       bool
 	bal        []string
+	gas        int64
 	qres       []string
+	qgas       []int64
 	injected   bool
 	panicked   string
 }
@@ -439,14 +446,16 @@ type runOut struct {
 func runReplica(t *testing.T, in *c09Input, withQueries bool) runOut {
 	w := newWorld(t, in)
 	c := w.c
-	var out runOut
+	out := runOut{qres: []string{}, qgas: []int64{}}
 	inject := func() {
 		if !withQueries || out.injected {
 			return
 		}
 		out.injected = true
 		for _, q := range in.Queries {
-			out.qres = append(out.qres, w.doQuery(q))
+			r, g := w.doQuery(q)
+			out.qres = append(out.qres, r)
+			out.qgas = append(out.qgas, g)
 		}
 	}
 	yields := 0
@@ -486,18 +495,18 @@ func runReplica(t *testing.T, in *c09Input, withQueries bool) runOut {
 		}
 	}
 	out.txOK = r.Code == 0
-	if out.txOK {
-		for _, m := range EventAttrs(r.Events, "eth.evm.v1.EventEthereumTx") {
-			if f := strings.Trim(m["eth_tx_failed"], `"`); f != "" {
-				out.txOK = false
-			}
-		}
-	}
+	out.gas = r.GasUsed
 	if os.Getenv("VERIF_C09_DEBUG") != "" {
 		fmt.Printf("   deliver(with=%v): code=%d gas=%d ok=%v panic=%q\n", withQueries, r.Code, r.GasUsed, out.txOK, out.panicked)
 	}
 	if in.Point == "post" {
 		inject()
+	}
+	ctx := c.Ctx()
+	fc := c.App.AccountKeeper.GetModuleAddress("fee_collector")
+	for _, a := range []sdk.AccAddress{eth.EthAddrToNibiruAddr(w.K), w.X.NibiruAddr, eth.EthAddrToNibiruAddr(w.Y), eth.EthAddrToNibiruAddr(w.Z),
+		w.S.NibiruAddr, fc, sdk.AccAddress(w.cosmos.PubKey().Address())} {
+		out.bal = append(out.bal, c.App.BankKeeper.GetBalance(ctx, a, "unibi").Amount.String())
 	}
 	_, h := c.EndBlock()
 	out.hash = hex.EncodeToString(h)
@@ -505,10 +514,6 @@ func runReplica(t *testing.T, in *c09Input, withQueries bool) runOut {
 		inject()
 	}
 	c.BeginBlock(5 * time.Second)
-	ctx := c.Ctx()
-	for id := 0; id < 4; id++ {
-		out.bal = append(out.bal, c.App.BankKeeper.GetBalance(ctx, eth.EthAddrToNibiruAddr(w.addr(id)), "unibi").Amount.String())
-	}
 	_, h = c.EndBlock()
 	out.next = hex.EncodeToString(h)
 	return out
@@ -528,7 +533,8 @@ func runCase(t *testing.T, in *c09Input) c09Obs {
 	with := runReplica(t, in, true)
 	return c09Obs{
 		HashEq: base.hash == with.hash, NextEq: base.next == with.next, TxEq: bytes.Equal(base.tx, with.tx),
-		TxOK: with.txOK, BaseOK: base.txOK, Base: base.bal, With: with.bal, QRes: with.qres, Injected: with.injected,
+		TxOK: with.txOK, BaseOK: base.txOK, Base: base.bal, With: with.bal, Gas: [2]int64{base.gas, with.gas},
+		QRes: with.qres, QGas: with.qgas, Injected: with.injected,
 		Panic: with.panicked,
 	}
 }
